@@ -435,15 +435,14 @@ func (m *Muxer) Start() error {
 func (m *Muxer) Close() {
 	m.mutex.Lock()
 	m.closed = true
+	for _, stream := range m.streams {
+		stream.close()
+	}
 	m.mutex.Unlock()
 
 	verifYield("close:beforeBroadcast")
 	m.cond.Broadcast()
 	verifYield("close:afterBroadcast")
-
-	for _, stream := range m.streams {
-		stream.close()
-	}
 }
 
 // WriteAV1 writes an AV1 temporal unit.
